@@ -24,6 +24,7 @@ import (
 type vector struct {
 	G       int     `json:"g"`
 	M       int     `json:"m"`
+	D       int     `json:"d"`
 	Ranges  [][]int `json:"ranges"`
 	Valid   bool    `json:"valid"`
 	Size    int     `json:"size"`
@@ -59,8 +60,7 @@ func confJSON(base uint32, w int, v vector, idx int) string {
 	if ips == nil {
 		ips = []string{}
 	}
-	block := 1 << uint(w-v.M)
-	start := (v.G / block) * block
+	start := v.D
 	c := map[string]interface{}{
 		"nodeSubnets": []string{"10.100.0.0/24"},
 		"ips":         ips,
